@@ -182,6 +182,8 @@ def run(p, script, seed=0):
             o.update(pd.DataFrame([row]))
     nb = Neighbour(nbd, nfeed, seed)
     for s in script:
+        if s[0] == "setref" and svc:
+            continue          # (a fitted SVC needs both classes in every fold of a new reference: the call is exercised with the threshold classifiers only)
         nb.step()
         kind = s[0]
         raised = "None"
@@ -228,12 +230,9 @@ def run(p, script, seed=0):
             elif kind == "setref":
                 # the user hands over a NEW reference (as many rows as the first one) - whatever the protocol state is; labelled samples accepted so
                 # far in an open oracle round stay accepted
-                e["op"], e["nrows"] = "set_reference", p["n0"]
                 nr = pd.DataFrame([mk(rng.random() < 0.5, rng.random() < 0.7) for _ in range(p["n0"])])
-                if svc:
-                    for i in (0, 1, 2, 3):
-                        nr.loc[i, "y"] = i % 2
-                e["rows"] = ref_bits(nr, clf, p["k"])
+                bits = ref_bits(nr, clf, p["k"])
+                e["op"], e["nrows"], e["rows"] = "set_reference", p["n0"], bits
                 det.set_reference(nr, target_name="y")
             elif kind == "label2":
                 e["nrows"] = 2
